@@ -263,6 +263,10 @@ def make_control(cfg, sch, c, broker, run):
                     return False
         return True
 
+    def quiet():
+        # the loop thread is parked in select() with nothing ready, or gone
+        return loop_parked(sch) or all(t.state == S.FINISHED for t in sch.ts if t.name == "L")
+
     def api(name, f):
         try:
             return f()
@@ -275,6 +279,7 @@ def make_control(cfg, sch, c, broker, run):
     def start_pubs():
         for i in range(len(msgs)):
             t = S.SThread(target=publisher, args=(i,), name="P%d" % (i + 1))
+            t.sym = ("pub", tuple(msgs[i]))
             pubs.append(t)
             t.start()
 
@@ -302,7 +307,7 @@ def make_control(cfg, sch, c, broker, run):
             start_pubs()
             for t in pubs:
                 t.join()
-            wait(all_done, "all messages complete")
+            wait(lambda: all_done() and quiet(), "all messages complete, loop idle")
             snapshot()
             s.explore = False
             shutdown()
@@ -323,7 +328,7 @@ def make_control(cfg, sch, c, broker, run):
             for t in pubs:
                 t.join()
             wait(lambda: run.connected >= 1, "connected")
-            wait(all_done, "all messages complete")
+            wait(lambda: all_done() and quiet(), "all messages complete, loop idle")
             snapshot()
             s.explore = False
             shutdown()
@@ -339,8 +344,9 @@ def make_control(cfg, sch, c, broker, run):
                 s.event("drop")
             for t in pubs:
                 t.join()
-            wait(lambda: run.connected >= 2 or not broker.dropped, "reconnected")
             wait(all_done, "all messages complete")
+            wait(lambda: run.connected >= 2 or not broker.dropped, "reconnected")
+            wait(lambda: all_done() and quiet(), "all messages complete, loop idle")
             snapshot()
             s.explore = False
             shutdown()
@@ -605,13 +611,24 @@ def learn_visible(cfg, seed, n=24):
     such lock is taken) while it is held: otherwise, with no decision point inside, its critical sections are
     never interrupted in the enumeration, never contended, and commute."""
     attrs, res, guards = set(), set(), collections.defaultdict(set)
-    for k in range(n):
-        r = run_once(cfg, S.Random(random.Random(seed * 1000 + k), (0.02, 0.1, 0.3)[k % 3]), audit=True, keep_events=False)
+
+    def absorb(r):
         a, rs = r.sched.conflicts()
-        attrs |= a
-        res |= rs
+        attrs.update(a)
+        res.update(rs)
         for l, g in r.sched.guard_table().items():
             guards[l] |= g
+    for k in range(n):
+        rng = random.Random(seed * 1000 + k)
+        st = S.PCT(rng, 3, 400) if k % 4 == 3 else S.Random(rng, (0.02, 0.1, 0.3)[k % 3])
+        absorb(run_once(cfg, st, audit=True, keep_events=False))
+    # every non-preemptive schedule (the choices at blocking points only)
+    prefix, k = [], 0
+    while prefix is not None and k < 150:
+        st = S.DFS(prefix, 0)
+        absorb(run_once(cfg, st, visible=(set(), set()), audit=True, keep_events=False))
+        prefix = S.dfs_next_prefix(st.stack)
+        k += 1
     attrs -= DFS_IGNORED_ATTRS
     locks = {r_ for r_ in res if r_ in guards or r_ in LOCK_ATTRS or r_ == "info_condition"}
     vis_res = set(res) - locks
@@ -717,7 +734,7 @@ def dfs_subtree(job):
             acc.notes.add("non-deterministic replay of a DFS prefix")
         sch = run.sched
         new_attrs = {a for a, w in sch.writers.items()
-                     if w and a not in vis[0] and len(w | sch.accessors.get(a, set())) >= 2}
+                     if len(w) >= 2 and a not in vis[0] and a not in DFS_IGNORED_ATTRS}
         if new_attrs:
             acc.notes.add("write by two threads outside the learnt conflict set: %s" % sorted(new_attrs))
         acc.pre_hist[st.preemptions] += 1
